@@ -133,6 +133,7 @@ func main() {
 	for i, r := range results {
 		if errs[i] != nil {
 			res.Error += errs[i].Error() + "\n"
+			fmt.Fprintln(os.Stderr, "gosym:", errs[i])
 			code = 2
 			continue
 		}
